@@ -184,6 +184,22 @@ int main(void) {
             }
             printf("OK %x %x %x\n", c, (uint32_t)z, u);
             munmap(p, n);
+        } else if (!strcmp(h_tok[0], "crcgen") && h_ntok == 5) {
+            /* crcgen <length> <seed> <align> <split>: driver-generated pseudo-random contents in an exact-size
+               heap buffer (ASan redzones on both sides), one-shot carquet vs zlib vs carquet update chain split
+               at <split> (lengths where a size-dependent code path could switch: powers of two and around) */
+            size_t n = (size_t)strtoull(h_tok[1], NULL, 10); uint32_t sd = (uint32_t)strtoul(h_tok[2], NULL, 10);
+            size_t al = (size_t)atoi(h_tok[3]) & 63, k = (size_t)strtoull(h_tok[4], NULL, 10);
+            uint8_t* base = malloc(n + al + 1); uint8_t* p = base + al;
+            for (size_t i = 0; i < n; i++) { sd = sd * 1664525u + 1013904223u; p[i] = (uint8_t)(sd >> 24); }
+            /* move to an exact-size block so that reads past the end are seen */
+            uint8_t* q = malloc(n ? n : 1); memcpy(q, p, n);
+            if (k > n) k = n;
+            uint32_t c = carquet_crc32(al ? p : q, n);
+            uint32_t z = (uint32_t)crc32(crc32(0L, Z_NULL, 0), q, (uInt)n);
+            uint32_t u = carquet_crc32_update(carquet_crc32(q, k), q + k, n - k);
+            printf("OK %x %x %x\n", c, z, u);
+            free(q); free(base);
         } else if (!strcmp(h_tok[0], "crc") && h_ntok == 3) {
             size_t al = (size_t)atoi(h_tok[1]), n; void* base;
             uint8_t* p = h_unhex(h_tok[2], &n, al, &base);
